@@ -179,6 +179,21 @@ def eval_case(ctx: Ctx, c: dict):
         elif exp is None and not r.startswith("err NameTooLong") and not r.startswith("err LabelTooLong") and not r.startswith("err EmptyLabel"):
             ctx.fail("C01/text-roundtrip/overlong-accepted", f"{labels!r}+{origin!r} -> {r}", rep)
         ctx.count("text." + ("abs" if n.is_absolute() else "rel") + ("+origin" if origin is not None else ""))
+        # the same text against an equal-but-differently-spelt origin, right after: the result carries THAT origin's
+        # octets (names compare case-insensitively, so anything keyed on a Name — a cache, a dict — would confuse them)
+        if origin is not None and not n.is_absolute():
+            origin2 = [bytes(x).swapcase() for x in origin]
+            if origin2 != origin and wf(labels + origin2):
+                o2 = dns.name.Name(origin2)
+                for route, fn in (("from_text", lambda: dns.name.from_text(text, o2)),
+                                  ("tokenizer", lambda: dns.tokenizer.Tokenizer(text + " x").get_name(o2))):
+                    if route == "tokenizer" and not (origin2 and origin2[-1] == b""):
+                        continue  # with a relative origin as_name() derelativizes a second time (checked above)
+                    r2, _ = outcome(fn, lambda x: enc_labels(x.labels))
+                    if r2 != "ok " + enc_labels(labels + origin2):
+                        ctx.fail(f"C01/text-roundtrip/origin-case-not-kept/{route}",
+                                 f"{route}({text!r}, origin={origin2!r}) right after the same text with origin {origin!r} -> {r2}", rep)
+                ctx.count("text.origin-case-variant")
         # the zone-file path into from_text: the printed name is one identifier token, and
         # Tokenizer.get_name(origin, relativize, relativize_to) is from_text + choose_relativity
         rel = bool(c.get("rel"))
